@@ -55,7 +55,16 @@ P_WIDE = ["1/1000000000", 4700, "22/1000000", 1000000, "3/100", 330, "1/10000000
 P_XT = ["1/1000000000000", 1000000000000, "3/10000000000", 30000000000, "1/100000000", 200000000, "7/1000000000", 5000000000] * 2
 SRC_XT = ["1/1000000000", 5000000000, "-1/10000000000", -20000000000, "3/100000000", 700000000, "1/1000000000000", 9000000000]
 
+# small-signal palette: ordinary passive values, sources of nanovolts / nanoamperes (absolute "is it zero" tests bite here;
+# every judgement in the checks is relative to the natural scale of the case, so nothing else changes)
+SRC_SMALL = ["1/1000000000", "-1/500000000", "3/1000000000", "1/2000000000", "1/200000000", "-7/1000000000", "1/250000000", "3/2000000000"]
+
+# nanovolt/nanoampere sources next to ordinary ones (a small source acting alone must still contribute its share)
+SRC_MIXED = ["1/1000000000", -2, "3/1000000000", "1/2", "1/200000000", -7, "1/250000000", "3/2"]
+
 PALETTES = {
+    "mixed": (P_REAL, SRC_MIXED),
+    "small": (P_REAL, SRC_SMALL),
     "xt": (P_XT, SRC_XT),
     "eq": (P_EQ, SRC_EQ),
     "wide": (P_WIDE, SRC_REAL),
